@@ -29,11 +29,11 @@ def parse_loader(data: np.array) -> np.array:
         # Second column should be the label
         Y = data[:, 1]
 
-        _, counts = np.unique(Y, return_counts=True)
+        labels, counts = np.unique(Y, return_counts=True)
 
         if len(counts) == 1:
             logger.warning("Parsed data only have a single label.")
-        if len(counts) != (np.max(Y) + 1):
+        if not np.array_equal(labels, np.arange(len(labels))):
             raise e.ValueError(
                 "Parsed data should have sequential labels, e.g., 0, 1, ..., n-1"
             )
